@@ -50,7 +50,7 @@ def handleHSet (_c : Ctx) (cmd : List Bytes) : Prog Res :=
             setOrErr [(key, .hash merged)] (.ret (.ok (intReply count)))
           else
             let merged := hash.foldl (fun (m : KMap Scalar) (f, v) => if (m.get f).isNone then m.put f v else m) entries
-            setOrErr [(key, .hash merged)] (.ret (.ok (intReply merged.length)))
+            setOrErr [(key, .hash merged)] (.ret (.ok (intReply entries.length)))
   | _ => .ret (.err wrongArgs)
 
 /-- shared prologue of the hash readers: arity, existence, type -/
@@ -147,8 +147,8 @@ def handleHRandField (_c : Ctx) (cmd : List Bytes) : Prog Res :=
         | some h =>
           let group (fv : Bytes × Scalar) : Bytes := bulkStr fv.1 ++ (if withvalues then hashValReply fv.2 else [])
           let mult := if withvalues then 2 else 1
-          if count ≥ h.length then .ret (.okPerm (arrHdr (h.length * mult)) (h.map group))
-          else if h.isEmpty then .panic "rand.Intn(0)"
+          if h.isEmpty then .ret (.ok (b "*0\r\n"))
+          else if count ≥ h.length then .ret (.okPerm (arrHdr (h.length * mult)) (h.map group))
           else .ret (.okPick (arrHdr (count.natAbs * mult)) count.natAbs (decide (count > 0)) (h.map group))
   | _ => .ret (.err wrongArgs)
 
